@@ -1483,7 +1483,12 @@ get_getter(CPPType *expr_type, string expression,
     }
   }
   while (expr_type->get_subtype() == CPPDeclaration::ST_array) {
-    expr_type = CPPType::new_type(new CPPPointerType(expr_type->as_array_type()->_element_type));
+    // The getter is a const method, so within it the elements are const.
+    CPPType *element_type = expr_type->as_array_type()->_element_type;
+    if (element_type->as_const_type() == nullptr) {
+      element_type = CPPType::new_type(new CPPConstType(element_type));
+    }
+    expr_type = CPPType::new_type(new CPPPointerType(element_type));
   }
 
   // Make up a CPPFunctionType.
